@@ -166,6 +166,17 @@ m('idx1-delete-without-index-remove', 'IDX1', 'DB.DeleteById/delete', ('db.go', 
 ''', '''	_ = indexes
 
 '''))
+m('idx2-updater-before-old-entries', 'IDX2', 'DB.UpdateById/', ('db.go', '''	if err := db.deleteDocFromIndexes(indexes, doc); err != nil {
+		return err
+	}
+
+	updatedDoc := updater(doc)
+''', '''	updatedDoc := updater(doc)
+	if err := db.deleteDocFromIndexes(indexes, doc); err != nil {
+		return err
+	}
+
+'''))
 m('idx3-counter-without-writeback', 'IDX3', 'DB.replaceDocs/Size', ('db.go', '''		meta.Size -= deletedDocs
 		if err := db.saveCollectionMetadata(q.Collection(), meta, tx); err != nil {
 			return err
@@ -377,6 +388,23 @@ for f in ff['findings']:
         continue
     open(os.path.join(OUT, name + '.diff'), 'w').write(diff)
     manifest.append({'name': name, 'rule': f['rule'], 'expect': f['key'][len(f['rule']) + 1:], 'kind': 'revert', 'reverse': True, 'what': f['what'][:90]})
+
+# the seeded changes written by independent sub-agents (see /verif/seeded): each must be
+# reported by a rule serving the property it was written to break
+import glob, shutil
+seeded = os.path.join(os.path.dirname(os.path.abspath(__file__)), '..', 'seeded')
+for d in sorted(glob.glob(os.path.join(seeded, '*'))):
+    try:
+        meta = json.load(open(os.path.join(d, 'meta.json')))
+    except Exception:
+        continue
+    own = meta.get('property')
+    rules = [c['rule'] for c in meta.get('confirmed_by_me', {}).get('checks_that_fire', []) if c['property'] == own]
+    if not rules:
+        continue
+    name = 'seed-' + os.path.basename(d)
+    shutil.copy(os.path.join(d, 'patch.diff'), os.path.join(OUT, name + '.diff'))
+    manifest.append({'name': name, 'rule': rules[0], 'expect': '', 'kind': 'seeded', 'property': own})
 
 json.dump(manifest, open(os.path.join(OUT, 'MUTANTS.json'), 'w'), indent=1)
 print(len(manifest), 'mutants written to', os.path.normpath(OUT))
